@@ -46,12 +46,15 @@ K_UNSIGNED = "C08-unsigned-sized-width-lost"
 K_SIGNED = "C08-signed-export-unimplemented"
 K_FLOAT32 = "C08-float32-export-20-decimals"
 K_LQ = "C08-lq-band-truncation"
+K_SIGNED_W = "C08-signed-narrow-width-lost"
 K_TEXT = {
     K_UNSIGNED: "sized unsigned 0u<n>/0d<n> (n != 64): ExportString prints the bare decimal value, so re-import "
                 "gives bits=64 instead of n (value and type are preserved)",
     K_SIGNED: "Signed.ExportString returns \"not implemented\": no signed value can be exported as text",
     K_FLOAT32: "Float32.ExportString prints %.20f: float32 values below about 2^-40 lose bits or collapse to 0 "
                "on re-import",
+    K_SIGNED_W: "a signed value narrower than 64 bits (reachable through ImportUint+CastType, the simulator's show path) is "
+                "exported as 0s<decimal>, a text without width: re-import gives the same signed value in 64 bits",
     K_LQ: "linear quantiser: ExportString prints band*bandSize and import truncates value/bandSize, which can "
           "land one band closer to zero (float rounding)",
 }
@@ -192,7 +195,7 @@ def ambiguity_violation(rep, hbin, h, rows, source):
 PREFIX = {"unsigned": "0u", "signed": "0s", "hex": "0x", "bin": "0b"}
 
 
-def omit_eval(f, ty, bits, val, es, what):
+def omit_eval(f, ty, bits, val, es, what, sext64=None):
     """the export option OmitPrefix, judged on one implementation line: the text with the option must be the
     full text without its type prefix, and prefix + that text must import to the same value, width and type.
     f: fields op/ort/orty/orbits/orbytes; val = integer value of the bytes.  -> list of (class, text)"""
@@ -209,6 +212,9 @@ def omit_eval(f, ty, bits, val, es, what):
     if f.get("ort") != "ok":
         return [("omit-prefix", "%s: ExportString(OmitPrefix) = %r; prefix + it does not import (full text %s)" % (what, op, es))]
     same_val = le_val(f.get("orbytes", "-")) == val
+    if ty == "signed" and sext64 is not None and f.get("orty") == ty and f.get("orbits") == "64" and str(bits) != "64" \
+            and le_val(f.get("orbytes", "-")) == sext64:
+        return []       # the width loss of narrow signed texts is reported by the plain round trip (K_SIGNED_W)
     if f.get("orty") != ty or not same_val:
         return [("omit-prefix", "%s: ExportString(OmitPrefix) = %r; prefix + it imports as ty=%s bytes=%s (full text %s)"
                  % (what, op, f.get("orty"), f.get("orbytes"), es))]
@@ -344,6 +350,8 @@ def compare_uints(impl, model):
         if fs[1] == "uint":
             w, v, ob = int(fs[2]), int(fs[3]), int(fs[4])
             bits, ty, entry = (ob if ob > 0 else w), "unsigned", "ImportUint(uint%d)" % w
+            if ob > 0:
+                v %= 1 << ob        # the number holds exactly `ob` bits
             st["optional_bits"]["positive" if ob > 0 else "zero" if ob == 0 else "negative"] += 1
         elif fs[1] == "show":
             w, v, ty = int(fs[2]), int(fs[3]), fs[4]
@@ -357,6 +365,8 @@ def compare_uints(impl, model):
                     st["cast_refused"] += 1
                 continue
             bits = size if size > 0 else w
+            if size > 0:
+                v %= 1 << size      # a register wider than the type shows its low `size` bits
             textual = ty in PREFIX
         else:
             bits, v, ty, entry = int(fs[2]), int.from_bytes(unhex(fs[3]), "big"), fs[4], "ImportBytes+" + fs[4]
@@ -374,6 +384,8 @@ def compare_uints(impl, model):
             bad.append("type/bits %s/%s, expected %s/%d" % (f.get("ty"), f.get("bits"), ty, bits))
         if le_val(f.get("bytes", "-")) != v:
             bad.append("bytes %s denote %d, expected %d" % (f.get("bytes"), le_val(f.get("bytes", "-")), v))
+        if fs[1] in ("uint", "show") and len(unhex(f.get("bytes", "-"))) != (bits + 7) // 8:
+            bad.append("%d byte(s) for a %d-bit number" % (len(unhex(f.get("bytes", "-"))), bits))
         if f.get("u64") != "!err" and f.get("u64") != str(v):
             bad.append("ExportUint64 = %s, expected %d" % (f.get("u64"), v))
         if f.get("u64") == "!err" and v < 1 << 64 and len(unhex(f.get("bytes", "-"))) <= 8:
@@ -396,18 +408,28 @@ def compare_uints(impl, model):
                 bad.append("ImportString(ExportBinary(true) = %s) -> %s, expected bin, %d bits, same value" % (f.get("ebs"), f.get("brt"), bits))
         es = f.get("es", "")
         if textual:
-            sv = v - (1 << 64) if v >> 63 else v
+            sv = v - (1 << bits) if (1 <= bits <= 64 and v >> (bits - 1)) else v
             want = {"unsigned": str(v), "hex": "0x<%d>%x" % (bits, v), "bin": "0b<%d>%s" % (bits, bin(v)[2:]), "signed": "0s%d" % sv}[ty]
             if es != want:
                 bad.append("ExportString = %s, expected %s" % (es, want))
         elif es == "!err":
             bad.append("ExportString fails for a %s value" % ty)
         if bad:
-            fails.append(("import-entry-value", "%s: %s" % (entry, "; ".join(bad)), case, l))
+            cls = "import-entry-value"
+            if len(bad) == 1 and bad[0].startswith("ExportString = !err") and ty == "signed" and bits != 64:
+                cls = "signed-narrow-export"      # Signed.ExportString refuses values that are not 8 bytes long
+            elif all("byte(s) for a" in b or b.startswith("ExportUint64 fails") for b in bad):
+                cls = "import-entry-width"        # ImportUint leaves a byte slice that does not match the width
+            fails.append((cls, "%s: %s" % (entry, "; ".join(bad)), case, l))
             continue
         is_lq = ty.startswith("lqs")
+        sext64 = None
+        if ty == "signed" and 1 <= bits <= 64:
+            sext64 = (v - (1 << bits) if v >> (bits - 1) else v) % (1 << 64)
         if f.get("rt") != "ok":
             fails.append(("reimport-error", "%s: ImportString(%s) fails" % (case, es), case, l))
+        elif ty == "signed" and bits != 64 and f.get("rty") == ty and f.get("rbits") == "64" and le_val(f.get("rbytes", "-")) == sext64:
+            fails.append((K_SIGNED_W, "%s -> ExportString %s -> bits 64" % (case, es), case, l))
         elif f.get("rty") != ty or le_val(f.get("rbytes", "-")) != v:
             if is_lq and f.get("rty") == ty and f.get("rbits") == str(bits) and lq_adjacent(bits, v, le_val(f.get("rbytes", "-"))):
                 fails.append((K_LQ, "%s -> %s -> bytes=%s" % (case, es, f.get("rbytes")), case, l))
@@ -420,7 +442,7 @@ def compare_uints(impl, model):
                 fails.append(("roundtrip", "%s -> %s -> bits %s" % (case, es, f.get("rbits")), case, l))
         else:
             st["roundtrips_ok"] += 1
-        for c, t in omit_eval(f, ty, bits, v, es, case):
+        for c, t in omit_eval(f, ty, bits, v, es, case, sext64):
             if is_lq and f.get("ort") == "ok" and f.get("orty") == ty and f.get("orbits") == str(bits) and \
                     lq_adjacent(bits, v, le_val(f.get("orbytes", "-"))):
                 c = K_LQ
